@@ -70,6 +70,22 @@ fn statement(out: &mut Out, to: Fmt, calls: &[CallSpec], output: &[u8], results:
 		);
 		return;
 	}
+	// The same calls into writers that accept only short pieces: identical bytes.
+	let inputs: Vec<(Vec<u8>, Supply, Option<Fmt>)> = calls.iter().map(|c| (c.input.clone(), c.supply.clone(), c.from_arg)).collect();
+	if calls.iter().all(|c| c.tail.is_none()) {
+		for pieces in [vec![1usize], vec![3, 1, 2], vec![5]] {
+			let (r2, o2) = crate::xtapi::translate_many_pieces(&inputs, to, pieces.clone());
+			out.eval("concat_short_writes", &format!("{key}{pieces:?}"), n > 0);
+			if r2.iter().any(|r| r.is_err()) || o2 != expected {
+				out.fail(
+					"concat_short_writes",
+					"",
+					format!("to={} calls: {} into a writer accepting pieces {:?}: results={:?} output={} instead of {}", to.name(), describe(calls), pieces, r2, short(&o2), short(&expected)),
+				);
+				return;
+			}
+		}
+	}
 	out.eval("target_reader_recovers_n", &key, n > 0);
 	if to == Fmt::Yaml && n == 0 {
 		// serde_yaml's multi-document iterator yields one (null) document for
